@@ -20,4 +20,9 @@ theorem fft_wiring :
     Gen.full_corr_spec = "template * spec_part" := by
   refine ⟨rfl, rfl, rfl, rfl, rfl, rfl, rfl, rfl, rfl, rfl, rfl⟩
 
+/-- further text of the current source that the model takes for granted (glue between library calls: argument lists, output
+allocation, loop bodies) -- a change there is a change of the tie -/
+theorem text_pins_more :
+    Gen.unravel_body = "sizes = np.zeros(len(shape), dtype=np.int64) ; result = np.zeros(len(shape), dtype=np.int64) ; sizes[-1] = 1 ; for i in range(len(shape) - 2, -1, -1): sizes[i] = sizes[i + 1] * shape[i + 1] ; remainder = index ; for i in range(len(shape)): result[i] = remainder // sizes[i] remainder %= sizes[i] ; return to_fixed_tuple(result, len(shape))" := rfl
+
 end C03
